@@ -78,3 +78,7 @@ def run(prog, chk):
     nb = any(fw.dominated([r], guard_edge=fw.edge_guard(lambda t: unparse(t) in ("self.timeout == 0.0", "self.timeout == 0"), "T")) for r in rs)
     td = any(fw.dominated([r], guard_edge=fw.edge_guard(lambda t: unparse(t) in ("timeout <= 0.0", "timeout <= 0"), "T")) for r in rs)
     chk.ob("R2.timeouts-raise", "_wait_for_send_window", nb and td and len(rs) >= 2, wf.loc, "non-blocking and timed waits raise socket.timeout")
+    # R3: what sendall's guarantee rests on in the waiting sender (rules shared with C22 / C20)
+    from ._shared import check_retest_after_wakeup, check_adjust_wakes_all
+    check_retest_after_wakeup(prog, chk, "R3")
+    check_adjust_wakes_all(prog, chk, "R3.adjust-wakes-all-senders")
